@@ -94,13 +94,16 @@ class DescriptorFormat:
             "decay_pattern": decay_pattern,
             "sub_decay_pattern": sub_decay_pattern,
         }
-        self.old_config = copy(DescriptorFormat.config)
+        # Configurations to restore, one per (possibly nested) entry of this context
+        self.old_configs: list[dict[str, str]] = []
 
     def __enter__(self) -> None:
+        old_config = copy(DescriptorFormat.config)
         self.set_config(**self.new_config)
+        self.old_configs.append(old_config)
 
     def __exit__(self, *args: list[Any]) -> None:
-        self.set_config(**self.old_config)
+        DescriptorFormat.config = self.old_configs.pop()
 
     @staticmethod
     def set_config(decay_pattern: str, sub_decay_pattern: str) -> None:
